@@ -106,7 +106,8 @@ def compiled_key():
     os.makedirs(d, exist_ok=True)
     stem = 'K_C16_%d' % os.getpid()
     p = os.path.join(d, stem + '.v')
-    open(p, 'w').write('Require Y2.Properties.Properties_C16.\nRequire Y2.Gen.GenCallPath.\n'
+    open(p, 'w').write('Require Import Coq.Strings.String.\nRequire Y2.Properties.Properties_C16.\n'
+                       'Require Y2.Gen.GenCallPath.\nOpen Scope string_scope.\n'
                        'Eval vm_compute in Y2.Gen.GenCallPath.source_key.\n')
     rc, out = vlib.run(['coqc', '-Q', vlib.COQ, 'Y2', p], timeout=120, cwd=d)
     for f in os.listdir(d):
@@ -115,7 +116,7 @@ def compiled_key():
                 os.remove(os.path.join(d, f))
             except OSError:
                 pass
-    m = re.search(r'= "([^"]*)"\s*:\s*String.string', out)
+    m = re.search(r'= "([^"]*)"\s*:\s*string', out)
     return m.group(1) if (rc == 0 and m) else None
 
 
@@ -183,13 +184,17 @@ def main():
     if ctx.replay:
         return replay(ctx)
 
+    phase = {}
+    t = time.time()
     # (A) translate (content-addressed cache: same include tree + harness -> same text)
     data, tlog = run_translator()
+    phase['translate'] = round(time.time() - t, 1); t = time.time()
     if data is None:
         ctx.broken.append('translator callpath.py failed: ' + tlog.strip().split('\n')[-1][:300])
     # (B) proofs
     guarded_proof_phase(ctx, data['source_key'] if data else None)
     proof_broken = list(ctx.broken)
+    phase['proof'] = round(time.time() - t, 1); t = time.time()
 
     routes = data['routes'] if data else []
     bad_routes = []
@@ -215,6 +220,7 @@ def main():
     # (C) harness
     binp, blog = vlib.build_cpp('c16_tsan', ['harness/callpath/routes.cpp', 'harness/callpath/tsan_driver.cpp'],
                                 flags=['-O1', '-g', '-fsanitize=thread'], compiler='clang++')
+    phase['build_harness'] = round(time.time() - t, 1); t = time.time()
     runs = []
     selftest = None
     vmap = {}
@@ -233,7 +239,7 @@ def main():
         if ctx.thorough or search:
             plan = [(8, 30000, ctx.seed), (16, 12000, ctx.seed + 1000), (3, 60000, ctx.seed + 2000), (12, 20000, ctx.seed + 3000)]
         else:
-            plan = [(8, 20000, ctx.seed)]
+            plan = [(8, 15000, ctx.seed)]
         for (th, it, sd) in plan:
             r = tsan_run(binp, 'main', th, it, sd)
             runs.append(r)
@@ -244,11 +250,15 @@ def main():
 
         # the vptr_map observation (evidence only; these routes are C16_excluded)
         if not search:
-            vr = tsan_run(binp, 'vmap-registered', 8, 20000 if not ctx.thorough else 60000, ctx.seed, timeout=200)
-            vu = tsan_run(binp, 'vmap-unregistered', 8, 100, ctx.seed, timeout=200)
+            vr = tsan_run(binp, 'vmap-registered', 8, 5000 if not ctx.thorough else 60000, ctx.seed, timeout=200)
+            # a real race on the hash table: it may corrupt the table and hang, hence the short timeout
+            vu = tsan_run(binp, 'vmap-unregistered', 8, 20, ctx.seed, timeout=30)
             vmap = {'registered': {'result': vr['result'], 'tsan_reports': len(vr['reports'])},
-                    'unregistered': {'result': vu['result'], 'tsan_reports': len(vu['reports']),
+                    'unregistered': {'result': vu['result'] or ('no result (rc=%s: hung or crashed, the table was corrupted by the race)' % vu['rc']),
+                                     'tsan_reports': len(vu['reports']),
                                      'first_report_head': trim_report(vu['reports'][0], 8) if vu['reports'] else ''}}
+
+    phase['tsan'] = round(time.time() - t, 1)
 
     # ---- decide
     lib_reports, harness_reports, mismatches, crashes = [], [], [], []
@@ -327,6 +337,7 @@ def main():
                                'ir_variants': sorted(per.keys()), 'shapes': sorted({r['shape'] for r in routes})},
         'tsan_runs': [{'cmd': r['cmd'], 'result': r['result'], 'reports': len(r['reports'])} for r in runs],
         'tsan_selftest': selftest,
+        'phase_seconds': phase,
         'vptr_map_ctor_observation': {
             'routes_excluded_by_C16_excluded': excl,
             'tsan_experiment': vmap,
